@@ -132,7 +132,7 @@ impl<C: Autocomplete + Help> SessModel<C> {
     }
 
     fn check(&self, before: &Snap, bterm: &Term, e: &Ev, calls: &[CallObs], stats: &mut Stats) -> Vec<Viol> {
-        let before_term_lfs = bterm.lfs;
+        let _ = bterm.lfs;
         let p = self.cfg.prop;
         let mon = &self.cfg.mon;
         let mut v = vec![];
@@ -312,43 +312,41 @@ impl<C: Autocomplete + Help> SessModel<C> {
                             format!("after Enter on {:?} the line is {:?} cursor {}", btext, after.text, after.cursor),
                         ));
                     }
-                    // one fresh prompt: output begins with CRLF, its last line is exactly the prompt
+                    // one fresh prompt, judged on the emulated screen (not on bytes): the submitted line stays
+                    // as a completed row, then the output rows, then a current row that is exactly the prompt
                     let bytes: Vec<u8> = calls.iter().flat_map(|c| sink_bytes(&c.sink)).collect();
-                    let out = String::from_utf8_lossy(&bytes).into_owned();
-                    let tail = out.rsplit('\n').next().unwrap_or("");
-                    if !out.starts_with("\r\n") || !out.contains('\n') || tail != after.prompt {
+                    let got = screen_effect(before.prompt, &btext, before.cursor, &bytes);
+                    let submitted = trim_blanks(&format!("{}{}", before.prompt, btext)).to_string();
+                    if let Some(u) = &got.unknown {
+                        v.push(Viol::new("MACHINERY/emulator-unknown-sequence", u.clone()));
+                    } else if got.done.first() != Some(&submitted) || got.cur != trim_blanks(after.prompt) || got.col != after.prompt.chars().count() {
                         v.push(Viol::new(
                             format!("{}/fresh-prompt", p),
-                            format!("output of Enter {:?}, prompt {:?}", out, after.prompt),
+                            format!(
+                                "Enter on {:?}: screen rows {:?}, current row {:?} col {}; expected first row {:?} and a current row {:?}",
+                                btext, got.done, got.cur, got.col, submitted, after.prompt
+                            ),
                         ));
                     } else if !is_help && handler_calls.len() <= 1 {
-                        // exact framing when we know everything that is printed
+                        // exact rows when we know everything that is printed
                         let body = match (handler_calls.len(), hmode) {
                             (0, _) | (1, HMode::Silent) | (1, HMode::Prompt(_)) => Some(String::new()),
                             (1, HMode::Write(t)) => Some(framed(&conv_lf(t))),
                             (1, HMode::Script(s)) => Some(framed(&script_out(s))),
-                            (1, HMode::ParseErr) => Some("error: unknown command\r\n".to_string()),
+                            (1, HMode::ParseErr) => None, // wording of the error line is not C01's / C13's subject
                             _ => None,
                         };
                         if let Some(body) = body {
-                            let want = format!("\r\n{}{}", body, after.prompt);
-                            // writeln_str known deviation is judged by C13, not here: compare modulo bare LF
-                            if out != want && mon.framing {
+                            let want_bytes = format!("\r\n{}{}", body, after.prompt);
+                            let want = screen_effect(before.prompt, &btext, before.cursor, want_bytes.as_bytes());
+                            if got != want {
+                                let cls = if mon.framing { "handler-output-framing" } else { "fresh-prompt" };
                                 v.push(Viol::new(
-                                    format!("{}/handler-output-framing", p),
-                                    format!("line {:?} {:?}: sink got {:?}, expected {:?}", btext, hmode, out, want),
-                                ));
-                            } else if out != want && !matches!(hmode, HMode::Script(_)) {
-                                v.push(Viol::new(
-                                    format!("{}/fresh-prompt", p),
-                                    format!("line {:?}: sink got {:?}, expected {:?}", btext, out, want),
+                                    format!("{}/{}", p, cls),
+                                    format!("line {:?} {:?}: screen rows {:?} + {:?}@{}, expected rows {:?} + {:?}@{}", btext, hmode, got.done, got.cur, got.col, want.done, want.cur, want.col),
                                 ));
                             }
                         }
-                    }
-                    // terminal: one new line at least and the current line is the prompt
-                    if last.term_lfs == before_term_lfs {
-                        v.push(Viol::new(format!("{}/fresh-prompt", p), "no line feed on Enter".to_string()));
                     }
                 }
                 _ => {
@@ -579,31 +577,26 @@ impl<C: Autocomplete + Help> SessModel<C> {
             }
         }
 
-        // ---- C13 framing of Cli::write
+        // ---- C13 framing of Cli::write, judged on the emulated screen
         if mon.framing {
             if let Ev::Write(script) = e {
                 stats.hit("framing_write");
                 let bytes = sink_bytes(&last.sink);
-                let out = String::from_utf8_lossy(&bytes).into_owned();
                 let body = framed(&script_out(script));
-                let head = "\r\x1b[2K";
-                let want_prefix = format!("{}{}{}{}", head, body, after.prompt, btext);
+                let back = "\x1b[D".repeat(btext.chars().count() - before.cursor.min(btext.chars().count()));
+                let want_bytes = format!("\r\x1b[2K{}{}{}{}", body, after.prompt, btext, back);
+                let got = screen_effect(before.prompt, &btext, before.cursor, &bytes);
+                let want = screen_effect(before.prompt, &btext, before.cursor, want_bytes.as_bytes());
                 if after.text != before.text || after.cursor != before.cursor {
                     v.push(Viol::new(format!("{}/write-changed-line", p), format!("{:?}@{} -> {:?}@{}", btext, before.cursor, after.text, after.cursor)));
                 }
-                if !out.starts_with(&want_prefix) {
+                if let Some(u) = &got.unknown {
+                    v.push(Viol::new("MACHINERY/emulator-unknown-sequence", u.clone()));
+                } else if got != want {
                     v.push(Viol::new(
                         format!("{}/write-framing", p),
-                        format!("{}: sink got {:?}, expected it to start with {:?}", e.render(), out, want_prefix),
+                        format!("{}: screen rows {:?} + {:?}@{}, expected rows {:?} + {:?}@{}", e.render(), got.done, got.cur, got.col, want.done, want.cur, want.col),
                     ));
-                } else {
-                    // whatever follows may only move the cursor
-                    let rest = &out[want_prefix.len()..];
-                    let mut t = Term::default();
-                    t.feed_all(rest.as_bytes());
-                    if !t.line.is_empty() || t.lfs > 0 || t.unknown.is_some() {
-                        v.push(Viol::new(format!("{}/write-framing", p), format!("{}: trailing output {:?}", e.render(), rest)));
-                    }
                 }
             }
         }
